@@ -308,9 +308,9 @@ func configTargetsObjects() map[string][]gen.Obj {
 // its behaviour on some objects.
 var altDocs = map[string]string{
 	"e_subj_contains_html_entities": "[e_subj_contains_html_entities]\nSkip = true\n",
-	"e_subj_orgunit_in_ca_cert":        "[e_subj_orgunit_in_ca_cert]\nCrossCert = true\n",
-	"e_crl_next_update_invalid":        "[e_crl_next_update_invalid]\nSubscriberCRL = false\n",
-	"e_rsa_fermat_factorization":       "[e_rsa_fermat_factorization]\nRounds = 0\n",
+	"e_subj_orgunit_in_ca_cert":     "[e_subj_orgunit_in_ca_cert]\nCrossCert = true\n",
+	"e_crl_next_update_invalid":     "[e_crl_next_update_invalid]\nSubscriberCRL = false\n",
+	"e_rsa_fermat_factorization":    "[e_rsa_fermat_factorization]\nRounds = 0\n",
 }
 
 var (
